@@ -6,8 +6,8 @@ From EV.gen Require GenCtor.
 Extraction Language OCaml.
 Set Extraction Optimize.
 (* the constructor facts are the ones tie A read off the headers *)
-Definition copy_run_eq := CopyModel.c_run_case GenCtor.eq_copy_inits_counters GenCtor.eq_copy_counters_from_source GenCtor.eq_move_inits_counters GenCtor.eq_move_counters_from_source.
-Definition copy_run_heq := CopyModel.c_run_case GenCtor.heq_copy_inits_counters GenCtor.heq_copy_counters_from_source GenCtor.heq_move_inits_counters GenCtor.heq_move_counters_from_source.
-(* the specification: every constructor initialises the counters to zero *)
-Definition copy_run_spec := CopyModel.c_run_case true false true false.
+Definition copy_run_eq j1 j2 := CopyModel.c_run_case GenCtor.eq_copy_inits_counters GenCtor.eq_copy_counters_from_source GenCtor.eq_move_inits_counters GenCtor.eq_move_counters_from_source j1 j2 GenCtor.eq_copy_assign_self_safe.
+Definition copy_run_heq j1 j2 := CopyModel.c_run_case GenCtor.heq_copy_inits_counters GenCtor.heq_copy_counters_from_source GenCtor.heq_move_inits_counters GenCtor.heq_move_counters_from_source j1 j2 GenCtor.heq_copy_assign_self_safe.
+(* the specification: every constructor initialises the counters to zero, and assignment from itself changes nothing *)
+Definition copy_run_spec j1 j2 := CopyModel.c_run_case true false true false j1 j2 true.
 Extraction "../ocaml/gen/copy_model.ml" copy_run_eq copy_run_heq copy_run_spec.
